@@ -32,6 +32,20 @@ def run(ctx):
         for d in r["diags"][kind]:
             ctx.violation("%s:%s:%s" % (kind, d.get("diag"), d.get("id")),
                           "pipeline differs: %s" % d.get("diag"), gencheck.short(d))
+    # the Encoder half on never-Reset Encoders whose first call coincides with the initial state (what is written must
+    # decode to what was called), and the Renderer half when the target is set late or changed between paths
+    from lib import enccheck
+    z = enccheck.run_enc_traces(ctx, ["zerofirst"], 10, ["err", "mode", "run", "lod", "sel"], want=("enc", "rt"), sub="zerofirst", shards=2)
+    for kind, ds in z["diags"].items():
+        for d in ds:
+            ctx.violation("zerofirst:%s:%s:%s" % (kind, d.get("diag"), d.get("id")),
+                          "never-Reset Encoder: trace rejected by %s" % kind, enccheck.trim(d))
+    g = rendcheck.run_rend_traces(ctx, ["geometry"], 90 if quick else 3000, sub="direct")
+    for d in g["diags"]:
+        cls = rendcheck.classify(d)
+        if cls in ("sel", "vm", "raster"):
+            ctx.violation("direct:%s:%s:%s" % (cls, d.get("what"), d.get("id")),
+                          "direct Renderer differs from the decoding machine: %s" % d.get("what"), gencheck.short(d))
     mc = ctx.mc[-1]
     st = r["summary"]["stats"]
     cov = dict(states=mc["distinct"], transitions=mc["generated"],
